@@ -113,3 +113,18 @@ Example ledger_of_a_small_history :
   /\ taken_in P0 init_state ops_ledger = [1; 2; 3]%N
   /\ pulled_in P0 init_state ops_ledger = [].
 Proof. vm_compute. repeat split; reflexivity. Qed.
+
+(** TokenLedger: a FuturesOrderedBounded history in which outputs 2 and 3 arrive before output 1
+    and are parked; after child 1 completes, 1 and 2 have been handed out (in order) and 3 is
+    still parked: parked ++ handed ++ dropped inside is a permutation of produced *)
+From FB Require Import TokenLedger.
+Definition ops_tokens : list op :=
+  [OBuild TFOB cp_fob [] []; OPush 1%N [([ACloneSelf], RP); ([], RR)]; OPush 2%N [([], RR)]; OPush 3%N [([], RR)];
+   OPoll 0 no_inj; OEnv (AWakeRef 0); OPoll 0 no_inj; OPoll 0 no_inj].
+Example token_ledger_of_a_small_history :
+  parked_of (st_coll (reach P0 ops_tokens)) = [TOut 3%N]
+  /\ handed_in P0 init_state ops_tokens = [TOut 1%N; TOut 2%N]
+  /\ dropped_inside_in P0 init_state ops_tokens = []
+  /\ produced_in P0 init_state ops_tokens = [TOut 3%N; TOut 2%N; TOut 1%N]
+  /\ Forall tok_op ops_tokens.
+Proof. vm_compute. repeat split; try reflexivity. repeat constructor. Qed.
